@@ -1894,6 +1894,16 @@ coap_send_internal(coap_session_t *session, coap_pdu_t *pdu) {
   coap_queue_t *node = coap_new_node();
   if (!node) {
     coap_log_debug("coap_wait_ack: insufficient memory\n");
+    /*
+     * coap_send_pdu() has counted this Confirmable, but without a node in
+     * the sendqueue nothing will ever take it out of the count again.
+     */
+    if (session->con_active) {
+      session->con_active--;
+      if (session->state == COAP_SESSION_STATE_ESTABLISHED)
+        /* Flush out any entries on session->delayqueue */
+        coap_session_connected(session);
+    }
     goto error;
   }
 
